@@ -24,6 +24,50 @@ def battery():
             [shared, shared], "x" * 9000, list(range(3000)), b"\x00" * 70000]
 
 
+class ShortReads(io.RawIOBase):
+    """A seekable raw stream whose read / readinto answer with at most `chunk` bytes per call (what io.RawIOBase allows: pipes, sockets,
+    network file systems, FileIO above 2 GiB)."""
+
+    def __init__(self, data, chunk):
+        self._b, self._chunk = io.BytesIO(data), chunk
+
+    def readable(self):
+        return True
+
+    def seekable(self):
+        return True
+
+    def readinto(self, b):
+        got = self._b.read(min(len(b), self._chunk))
+        b[:len(got)] = got
+        return len(got)
+
+    def seek(self, pos, whence=0):
+        return self._b.seek(pos, whence)
+
+    def tell(self):
+        return self._b.tell()
+
+
+class Duck:
+    """Not an io class at all: read(n) / readline / seek / tell, short answers."""
+
+    def __init__(self, data, chunk):
+        self._b, self._chunk = io.BytesIO(data), chunk
+
+    def read(self, n=-1):
+        return self._b.read(self._chunk if n is None or n < 0 else min(n, self._chunk))
+
+    def readline(self):
+        return self._b.readline()
+
+    def seek(self, pos, whence=0):
+        return self._b.seek(pos, whence)
+
+    def tell(self):
+        return self._b.tell()
+
+
 def main():
     import joblib
     cases = 0
@@ -55,6 +99,20 @@ def main():
                 buf.seek(0)
                 if joblib.load(buf) != obj:
                     return dict(violation=True, cases=cases, what="BytesIO round trip differs", witness=dict(obj=str(obj)[:60], compress=repr(comp)))
+                # an open file object that is not buffered: read(n) may answer with fewer bytes than asked for
+                for kind in (ShortReads, Duck):
+                    for chunk in (1, 7, 4096, 65536):
+                        if kind is Duck and comp not in (0, False):
+                            continue  # the codecs of the standard library need more of a file object than read/seek/tell
+                        cases += 1
+                        try:
+                            got = joblib.load(kind(buf.getvalue(), chunk))
+                        except Exception as e:  # noqa
+                            return dict(violation=True, cases=cases, what="load from an unbuffered file object raised %r" % (e,),
+                                        witness=dict(obj=str(obj)[:60], compress=repr(comp), file_object=kind.__name__, bytes_per_read=chunk))
+                        if got != obj or type(got) is not type(obj):
+                            return dict(violation=True, cases=cases, what="load from an unbuffered file object returned a different object: %r" % (str(got)[:60],),
+                                        witness=dict(obj=str(obj)[:60], compress=repr(comp), file_object=kind.__name__, bytes_per_read=chunk))
         # shared and recursive references, protocols
         import pickle
         shared = [1, 2]
